@@ -35,8 +35,9 @@ def frac_ambiguous(tenths, n):
 
 
 def settings_kwargs(cfg, seed):
-    kw = dict(n_iter=cfg["n"], seed=seed, progress_bar=False, random_order_variables=cfg["rnd"],
-              burn_in_step_power=cfg["pw"][0] / cfg["pw"][1])
+    # (a power <<0, 0>> is "not a number": neither > 1/2 nor <= 1 in the specification's rational order - refused)
+    kw = dict(n_iter=cfg.get("pilot_n") or cfg["n"], seed=seed, progress_bar=False, random_order_variables=cfg["rnd"],
+              burn_in_step_power=(cfg["pw"][0] / cfg["pw"][1]) if cfg["pw"][1] else float("nan"))
     if cfg["burn"][0] == "count":
         kw["n_burn_in_iter"] = cfg["burn"][1]
         kw["n_burn_in_iter_frac"] = None
@@ -299,7 +300,20 @@ def _run_config(model_name, cfg, seed, workdir, n_ind=6, want_params=False, comp
                 lkw = log_kwargs(log, workdir)
                 if lkw:
                     settings.set_logs(**lkw)
+                if cfg.get("pilot_n"):
+                    # the settings object first serves a pilot run with another number of iterations, then the caller changes
+                    # n_iter on the same object: the run under observation is configured by the settings as they now read
+                    pm, pdata, _ = zoo.make(model_name, n_ind=n_ind, seed=cohort_seed)
+                    palgo = algorithm_factory(settings)
+                    pds = Dataset(pdata)
+                    pm.initialize(pds)
+                    palgo.run(pm, pds)
+                    settings.parameters["n_iter"] = cfg["n"]
                 algo = algorithm_factory(settings)
+                if cfg.get("post_load") is not None:
+                    # an explicit count given after construction, through the algorithm's own load_parameters
+                    algo.load_parameters({"n_burn_in_iter": int(cfg["post_load"])})
+                    ev0["burn"] = ["count", int(cfg["post_load"])]
             except LeaspyAlgoInputError as e:
                 ev0.update(outcome="refused", nb=0, na=0)
                 info["exception"] = repr(e)
